@@ -22,6 +22,7 @@ pub const ASSUMPTIONS_C12: &[&str] = &["panics are observed with catch_unwind ar
 pub const ASSUMPTIONS_C13: &[&str] = &[
     "the reference state machine in oracle/vsign.rs is a correct reading of the statement and of the State/Operation documentation",
     "where the statement is silent (sign_type() during/after a failed configuration or after a configuration of zero blocks; the configured size in that same corner; hidden buffers) nothing is compared",
+    "which chunks a sign 'accepts' is taken from the documented behaviour of the virtual sign: while configuring, a 16-byte block at offset 0 whose family byte is 0x04 or 0x08; while receiving pixels, every chunk; PixelsComplete turns 'pixels received' into page-loaded (manual) or showing-pages (automatic)",
 ];
 
 // ---------------------------------------------------------------------------------------
